@@ -606,7 +606,8 @@ func c14b(b bool) string {
 	return "0"
 }
 
-// args renders the case for the driver lanes c14x / c14xlegacy.
+// args renders the case for the driver lanes c14xj (e2e lanes: several Content-Encoding lines are one
+// list, fixes/C14-7) / c14x (first line decides) / c14xlegacy.
 func (c *c14Case) args() string {
 	return strings.Join([]string{c.proto, c14b(c.dc), c14b(c.auto), verifh.Hex(c.method), verifh.Hex(c.ae), verifh.Hex(c.rng),
 		c14b(c.hasBody()), verifh.HexList(c.sentHeader()), strconv.FormatInt(c.declaredLength(), 10),
@@ -668,6 +669,11 @@ func (c *c14Case) class(transportAsked bool) string {
 		ce = c.ce[0]
 	}
 	reaches := c.proto == "h3" || c.hasBody()
+	if len(c.ce) > 1 && c.method != "HEAD" && reaches &&
+		((transportAsked && strings.EqualFold(ce, "gzip")) || (c.auto && c14Supported(ce))) {
+		// the three branches read Header.Get: the first line decides, all lines are deleted
+		return "multi-line-content-encoding"
+	}
 	switch {
 	case c.proto == "h3" && transportAsked && strings.EqualFold(ce, "gzip") && ce != "gzip":
 		return "h3-gzip-case"
@@ -718,6 +724,11 @@ func (c *c14Case) oracle(o c14Obs) (ok bool, why string) {
 		return true, ""
 	}
 	decode := c.method != "HEAD" && ((transportAsked && strings.EqualFold(ce, "gzip")) || (c.auto && c14Supported(ce)))
+	if len(c.arrivedCE()) > 1 {
+		// several Content-Encoding field lines are a LIST of codings (RFC 9110 5.3), like the same
+		// codings on one line: left alone
+		decode = false
+	}
 	if want := c.wantStatus(c.rng != ""); o.status != want {
 		return false, fmt.Sprintf("status %d, sent %d", o.status, want)
 	}
@@ -1262,7 +1273,7 @@ func c14RunLane(t *testing.T, s *verifh.Session, e *c14Env, cases []*c14Case, ne
 		if o.proto != int(c.proto[1]-'0') && o.rtErr == "" {
 			t.Fatalf("infra: case %s answered over HTTP/%d", c.id, o.proto)
 		}
-		s.Case("c14x "+c.args(), o.answer(c), ok, class, o.unc || len(c.ce) > 0, human)
+		s.Case("c14xj "+c.args(), o.answer(c), ok, class, o.unc || len(c.ce) > 0, human)
 	}
 	for _, k := range need {
 		if hist[k] == 0 {
@@ -1271,7 +1282,7 @@ func c14RunLane(t *testing.T, s *verifh.Session, e *c14Env, cases []*c14Case, ne
 	}
 }
 
-const c14Rule = "in-process origin; FULL matrix {default, DisableCompression, AutoDecompress, caller Accept-Encoding, caller AE+AutoDecompress, DisableCompression+AutoDecompress, caller AE gzip} x {GET, HEAD, Range GET} x Content-Encoding {gzip, deflate, br, zstd, identity, unknown, none, empty value, GZIP, Gzip, Br, ZSTD, x-gzip, 'gzip, br', 'br,gzip', two header lines, 'gzip;q=1'} with payloads {empty,tiny,text,random}; plus random decoded cases: payload up to multi-MiB (one of 12 MiB behind a 16 MiB zstd window, streamed or single-segment), half of them encoded with DRAWN codec parameters (level / quality 0..11, brotli lgwin 10..24, zstd window 2^10..2^25, single-segment, check sum on/off, no-entropy / all-literal modes, padding frames, gzip FEXTRA/FNAME/FCOMMENT/MTIME/OS, sync flushes), multi-member gzip, Content-Length vs streamed framing, streams truncated / bit-flipped (first bytes, last bytes, anywhere), zero-length body, multi-member gzip / multi-frame zstd messages that end BEFORE the declared Content-Length at a member/frame boundary, just after it, or anywhere (decoded under every configuration and undecoded; oracle: read error, never a silently shortened body), 1-4 cycling Read sizes from {1..65536}; Content-Encoding LISTS (one field: gzip first / last / repeated / empty elements / inner white space; several field lines: supported token in any position, repeated, empty first line, three lines; optional white space around a single token, the value as it ARRIVED learnt from a mirror field); the product {default, AutoDecompress (full), other configurations (sampled; full in thorough)} x {gzip, deflate, br, zstd, GZIP, none, identity, lists} x 43 Content-Type values (media types naming a compression or archive format, parameters, case, malformed, absent) with 0-3 further harmless fields (Content-Disposition filename=.gz, Cache-Control: no-transform, Vary, ETag, Content-MD5, Content-Location, X-Content-Encoding, ...): the decision must not depend on them and they must arrive unchanged. Observed: Accept-Encoding at the origin, Response.Header (Content-Encoding, Content-Length, X-Keep, Content-Type and the further fields), ContentLength, Uncompressed, body bytes + final read error. Compared with the Lean model (c14x) and judged by an independent Go oracle of the property text; non-trivial = a Content-Encoding was sent or the body was decoded"
+const c14Rule = "in-process origin; FULL matrix {default, DisableCompression, AutoDecompress, caller Accept-Encoding, caller AE+AutoDecompress, DisableCompression+AutoDecompress, caller AE gzip} x {GET, HEAD, Range GET} x Content-Encoding {gzip, deflate, br, zstd, identity, unknown, none, empty value, GZIP, Gzip, Br, ZSTD, x-gzip, 'gzip, br', 'br,gzip', two header lines, 'gzip;q=1'} with payloads {empty,tiny,text,random}; plus random decoded cases: payload up to multi-MiB (one of 12 MiB behind a 16 MiB zstd window, streamed or single-segment), half of them encoded with DRAWN codec parameters (level / quality 0..11, brotli lgwin 10..24, zstd window 2^10..2^25, single-segment, check sum on/off, no-entropy / all-literal modes, padding frames, gzip FEXTRA/FNAME/FCOMMENT/MTIME/OS, sync flushes), multi-member gzip, Content-Length vs streamed framing, streams truncated / bit-flipped (first bytes, last bytes, anywhere), zero-length body, multi-member gzip / multi-frame zstd messages that end BEFORE the declared Content-Length at a member/frame boundary, just after it, or anywhere (decoded under every configuration and undecoded; oracle: read error, never a silently shortened body), 1-4 cycling Read sizes from {1..65536}; Content-Encoding LISTS (one field: gzip first / last / repeated / empty elements / inner white space; several field lines: supported token in any position, repeated, empty first line, three lines; optional white space around a single token, the value as it ARRIVED learnt from a mirror field); the product {default, AutoDecompress (full), other configurations (sampled; full in thorough)} x {gzip, deflate, br, zstd, GZIP, none, identity, lists} x 43 Content-Type values (media types naming a compression or archive format, parameters, case, malformed, absent) with 0-3 further harmless fields (Content-Disposition filename=.gz, Cache-Control: no-transform, Vary, ETag, Content-MD5, Content-Location, X-Content-Encoding, ...): the decision must not depend on them and they must arrive unchanged. Observed: Accept-Encoding at the origin, Response.Header (Content-Encoding, Content-Length, X-Keep, Content-Type and the further fields), ContentLength, Uncompressed, body bytes + final read error. Compared with the Lean model (c14xj: Lines.Joined.process) and judged by an independent Go oracle of the property text; non-trivial = a Content-Encoding was sent or the body was decoded"
 
 var c14Need = []string{"status:206", "status:204", "status:304", "short:boundary", "short:anywhere", "short-decoded", "decoded", "untouched", "HEAD", "Range", "decoded:gzip", "decoded:deflate", "decoded:br", "decoded:zstd", "stream:trunc", "stream:flip", "stream:emptywire", "framing:stream", "decoded-error", "multi-MiB", "multi-member",
 	"type:compressed-media", "type:compressed-media+decoded", "extra-fields", "extra-fields+decoded", "ce-list", "ce-lines>1", "ows", "codec-params", "12MiB"}
